@@ -268,6 +268,8 @@ ENGINES.append({"name": "vserver", "path": "lib/serverdrv.py", "serves_propertie
                                   "TLC for ServerTrace"})
 
 NOT_APPLICABLE = [
+    {"property_id": "C20", "reason": "encode/decode fidelity and exact sizes of pure functions: TLC sees leaf encodings only as opaque tokens, so a TLA+ model of the framing would decide a small fraction of the statement and the driver's own equality test the rest (DESIGN.md A.6)"},
+    {"property_id": "C22", "reason": "what this family can decide of it (the element's key-value map, bit-exact) is decided by C09 / C12; the generated derive-macro code and typed equality are outside any state machine (DESIGN.md A.6)"},
     {"property_id": "C07", "reason": "robustness/memory-safety over arbitrary file bytes (panic, abort, allocation size): no state machine for a TLA+ specification to constrain, TLC cannot observe panics or allocations"},
     {"property_id": "C21", "reason": "decode robustness of pure functions on arbitrary bytes: nothing for a TLA+ specification to decide"},
 ]
